@@ -285,6 +285,19 @@ QUAL_VALS = ["abcA", "hypothetical protein", "a/b", "x=y", "/note=inner", "1", "
 GFF_VALS = [v for v in QUAL_VALS if v == v.strip()] + ["a;b", "k=v", "50%", "a,b", "a&b", "Na+/K+ ATPase", "cds+1", "+", "a%2Bb"]
 
 
+GFF_EXTRA_KEYS = ["Id", "id", "iD", "name", "parent", "Note2"]
+WORDS = ["alpha", "beta", "gamma", "delta", "iota", "kappa", "of", "the", "ATP-binding", "subunit", "(EC 1.2.3.4)", "a", "x=y", "50%"]
+
+
+def long_text(rng, for_gff):
+    """A value longer than a line of the format (60-220 characters): words separated by one blank, now and then by two."""
+    out = rng.choice(WORDS)
+    target = rng.randint(60, 220)
+    while len(out) < target:
+        out += ("  " if rng.random() < 0.2 else " ") + rng.choice(WORDS)
+    return out
+
+
 def gen_location(rng, maxpos):
     l = _gen_location(rng, maxpos)
     if rng.random() < 0.12:
@@ -327,9 +340,15 @@ def gen_feature(rng, maxpos, for_gff=False, fid=None):
         if not any(l[:2] == x[:2] and l[2] == x[2] for x in locs):
             locs.append(l)
     qual = {}
-    for k in rng.sample(QUAL_KEYS, rng.randint(0, 3)):
+    for k in rng.sample(QUAL_KEYS + (GFF_EXTRA_KEYS if for_gff else []), rng.randint(0, 3)):
         r = rng.random()
-        if for_gff:
+        if for_gff and k in GFF_EXTRA_KEYS:
+            # ordinary qualifiers whose names differ from a reserved GFF3 tag only in case; few values, so that
+            # neighbouring features often share one
+            qual[k] = rng.choice(["shared", "x1"])
+        elif r > 0.88:
+            qual[k] = long_text(rng, for_gff)
+        elif for_gff:
             qual[k] = rng.choice(GFF_VALS)
         elif r < 0.2:
             qual[k] = None
